@@ -5,7 +5,8 @@ import EgoVerif.C10.Spec
    into extra code units numbered after the functions, in order of completion; a function text
    starting with `u` / `n` has one unnamed / named result: its `Y<k>` `Z<f>` `W` statements are
    `return mkv(k)` / `return f<f>()` / `return 1/zero`, and the harness closes its body with a bare
-   return, which the parser appends):
+   return, which the parser appends; `I<id>.<k>[..]` is `if i<id> == k { .. }` on the counter of an
+   enclosing loop of the same function):
    `vm <prog>`   → trace of the VM model on compileCtl, e.g. `1,2,r7,rn:ok`
    `spec <prog>` → trace of CtlSpec
    `skel <prog>` → control skeleton of compileCtl, same token language as the harness -/
@@ -74,6 +75,15 @@ def parseStmt : Nat → Char → List Char → PS → Option (Stmt × List Char 
         | none => none
         | some (b, r', st') => some (.loop id n b, r', st')
       | _ => none
+    else if c == 'I' then
+      let (id, r1) := parseNum r 0
+      match r1 with
+      | '.' :: r2 =>
+        let (k, r3) := parseNum r2 0
+        match parseBracket fuel r3 st with
+        | none => none
+        | some (b, r', st') => some (.cond id k b, r', st')
+      | _ => none
     else none
 end
 
@@ -138,6 +148,7 @@ def skelUnit (units : List Code) : Nat → Nat → String
       | .tryPop => "O"
       | .branch a => "J" ++ toString (keptIdx c a)
       | .loopTest _ _ a => "F" ++ toString (keptIdx c a)
+      | .ifTest _ _ a => "F" ++ toString (keptIdx c a)
       | .defer_ d => "D{" ++ skelUnit units fuel d ++ "}"
       | .runDefers => "Q"
       | .ret => "X"
